@@ -329,12 +329,20 @@ func (c *compiler) evalAccessIndex(left, index interface{}, node *ast.IndexExpre
 	rv := reflect.ValueOf(left)
 	switch rv.Kind() {
 	case reflect.Map:
+		if index == nil {
+			return nil, fmt.Errorf("cannot use nil as map index")
+		}
+
 		mapKeyType := reflect.TypeOf(left).Key().Kind()
 		keyType := reflect.TypeOf(index).Kind()
 		if mapKeyType != reflect.Interface &&
 			keyType != mapKeyType {
 			err = fmt.Errorf("cannot use %v (%s constant) as %s value in map index", index, keyType.String(), mapKeyType.String())
 			return nil, err
+		}
+
+		if it := reflect.TypeOf(index); !it.AssignableTo(reflect.TypeOf(left).Key()) || !it.Comparable() {
+			return nil, fmt.Errorf("cannot use %v (%s) as %s value in map index", index, it, reflect.TypeOf(left).Key())
 		}
 
 		val := rv.MapIndex(reflect.ValueOf(index))
@@ -349,7 +357,9 @@ func (c *compiler) evalAccessIndex(left, index interface{}, node *ast.IndexExpre
 		}
 	case reflect.Array, reflect.Slice:
 		if i, ok := index.(int); ok {
-			if rv.Len()-1 < i {
+			if i < 0 {
+				err = fmt.Errorf("array index out of bounds, got negative index %d", i)
+			} else if rv.Len()-1 < i {
 				err = fmt.Errorf("array index out of bounds, got index %d, while array size is %d", index, rv.Len())
 			} else {
 
